@@ -1,5 +1,6 @@
 pub mod alloc;
 pub mod alpha;
+pub mod c14;
 pub mod chain;
 pub mod elem;
 pub mod engine;
@@ -8,7 +9,10 @@ pub mod itercheck;
 pub mod mapworld;
 pub mod op;
 pub mod orch;
+pub mod pairs;
 pub mod plan;
+pub mod serde_impls;
+pub mod setworld;
 pub mod shard;
 pub mod util;
 
